@@ -52,6 +52,7 @@ class ShortRaw(io.RawIOBase):
         self._pos = 0
         self._first = max(1, min(first, len(data))) if data else 0
         self.name = "<short-read>"
+        self.mode = "rb"
 
     def readable(self):
         return True
@@ -120,7 +121,7 @@ class IOFaults:
             # nothing to tear: behave like the real open
             return self._real_open(file, *a, **k)
         if what == "short":
-            return self._short(data, d, a, k)
+            return self._short(data, dict(d, _file=os.fspath(file)), a, k)
         try:
             os.makedirs(self.scratch, exist_ok=True)
             fp = os.path.join(self.scratch, "faulted.%d" % n)
@@ -143,13 +144,18 @@ class IOFaults:
         lines = data.splitlines(keepends=True)
         li = max(0, min(int(d.get("line", 0)), len(lines)))
         first = sum(len(x) for x in lines[:li]) + int(d.get("col") or 0)
-        mode = a[0] if a else k.get("mode", "r")
-        buffering = a[1] if len(a) > 1 else k.get("buffering", -1)
+        def arg(pos, name, default=None):
+            return a[pos] if len(a) > pos else k.get(name, default)
+        mode = arg(0, "mode", "r")
+        buffering = arg(1, "buffering", -1)
         raw = ShortRaw(data, first)
+        raw.name = d.get("_file", raw.name)
         if "b" in mode:
             return raw if buffering == 0 else io.BufferedReader(raw)
-        return io.TextIOWrapper(io.BufferedReader(raw), encoding=k.get("encoding"), errors=k.get("errors"),
-                                newline=k.get("newline"))
+        if buffering == 0:
+            raise ValueError("can't have unbuffered text I/O")
+        return io.TextIOWrapper(io.BufferedReader(raw), encoding=arg(2, "encoding"), errors=arg(3, "errors"),
+                                newline=arg(4, "newline"))
 
     def __enter__(self):
         builtins.open = self._open
@@ -167,10 +173,11 @@ class Interrupt:
 
     EXC = {"MemoryError": MemoryError, "KeyboardInterrupt": KeyboardInterrupt}
 
-    def __init__(self, files, at=None, exc="MemoryError"):
+    def __init__(self, files, at=None, exc="MemoryError", action="raise"):
         self.files = set(files)
         self.at = at
         self.exc = self.EXC[exc]
+        self.action = action          # "raise" an exception, or run the cycle "collect"or
         self.count = 0
         self.fired = False
         self.where = None
@@ -196,12 +203,16 @@ class Interrupt:
         return True
 
     def _local(self, frame, event, arg):
-        if event == "line" and self._eligible(frame):
+        if event == "line" and (self.action == "collect" or self._eligible(frame)):
             self.count += 1
             if self.at is not None and self.count == self.at and not self.fired:
                 self.fired = True
                 self.where = "%s:%d" % (os.path.basename(frame.f_code.co_filename), frame.f_lineno)
-                raise self.exc("bbsim injected interruption")
+                if self.action == "collect":
+                    import gc
+                    gc.collect()          # finalisers of held garbage run here, at this line
+                else:
+                    raise self.exc("bbsim injected interruption")
         return self._local
 
     def _global(self, frame, event, arg):
